@@ -25,6 +25,7 @@ func TestMain(m *testing.M) {
 		"a 'complete command line' is a CRLF-terminated line together with the data of its well-formed literals; the line that follows an accepted IDLE belongs to the IDLE command (it ends it) and the pair is answered by one tagged completion",
 		"line accounting is judged on the line-accountable class only: lines without '{' and without bare CR / LF (RFC 3501 leaves the framing after a rejected literal header to the client)",
 		"deep nesting runs in a child process whose goroutine stack is capped at 16 MiB (the parsers bound their recursion at 100 levels, so no input needs more): an unbounded recursion shows as a fatal stack overflow at some ten thousand levels instead of millions; every recursive search-key shape is driven deep under every SEARCH prefix in every run",
+		"layer B also cuts the client off in the other direction (TestWireCutMidResponse): the connection is reset while the server is still writing an answer far larger than the socket buffers; the session must end, the other session goes on and Close returns",
 		"memory growth is decided against a linear budget c*len(input)+k (+ the 30 MiB literal cap for one pending literal), not proved",
 		"STARTTLS with TLS configured is not exercised (the shared test bed has no TLS option); without TLS it is an ordinary command line")
 }
